@@ -2,7 +2,9 @@ package rules
 
 import (
 	"fmt"
+	"go/constant"
 	"go/types"
+	"strings"
 
 	"cvsslint/internal/facts"
 	"cvsslint/internal/ir"
@@ -115,6 +117,17 @@ func (e *Env) getErrorRules(l *facts.Level, wantSentinel func(kind string) []str
 			}
 			continue
 		}
+		// a return that may be nil at run time (errs.Wrap(x) with x not known to be non-nil) is a 'valid' verdict
+		// that bypasses the coverage above
+		if s0, in0, w0 := sentinelOf(lf.Ret[0]); !(w0 && s0 != "") {
+			nonNil := false
+			if w0 && in0 != nil && hasGuard(lf, ir.Bin("!=", in0, nilOf(errorType))) {
+				nonNil = true
+			}
+			if !nonNil {
+				c.Fail("validity-coverage", cons, e.P.Pos(lf.Pos), "returns an error value that is not provably non-nil ("+clip(lf.Ret[0].Pretty())+"): the object can be reported valid without the field and embedded-level tests")
+			}
+		}
 		// rejecting path: sentinel by cause
 		sent, inner, isWrap := sentinelOf(lf.Ret[0])
 		if !isWrap {
@@ -160,4 +173,112 @@ func (e *Env) getErrorRules(l *facts.Level, wantSentinel func(kind string) []str
 		}
 	}
 	c.Check(nNil >= 1, "validity-coverage", who+" valid paths", e.P.Pos(ge.Pos()), fmt.Sprintf("%d", nNil), "GetError never reports 'valid'")
+}
+
+// groupEmptiness (v2): IsEmpty() is true exactly when none of the level's
+// names is recorded in names (or the receiver is nil). The equations (C04/C05),
+// GetError's all-or-nothing test (C08) and Encode's guards all rely on it.
+func (e *Env) groupEmptiness(l *facts.Level) {
+	c := e.C
+	ie := l.Method("IsEmpty")
+	if ie == nil {
+		return
+	}
+	who := fname(ie)
+	leaves, err := ir.Leaves(e.P.SSAFunc(ie), ir.LeafOptions{Forward: true})
+	if err != nil {
+		c.Undecided("group-emptiness", who, e.P.Pos(ie.Pos()), err.Error())
+		return
+	}
+	namesMap := ir.Field(ir.Param(0), l.Names)
+	look := func(n string) *ir.Term {
+		return &ir.Term{Op: ir.OLookup, Args: []*ir.Term{namesMap, ir.Const(constant.MakeString(n), types.Typ[types.String])}}
+	}
+	recvNil := ir.Bin("==", ir.Param(0), nilOf(l.Ptr()))
+	ok := true
+	// a boolean expression returned as a value is split into its two outcomes
+	var split []*ir.Leaf
+	for _, lf := range leaves {
+		if len(lf.Ret) == 1 && lf.Ret[0].Op != ir.OConst && (lf.Ret[0].Op == ir.OLookup || lf.Ret[0].Op == ir.OUn || lf.Ret[0].Op == ir.OBin || lf.Ret[0].Op == ir.OCall) {
+			t := lf.Ret[0]
+			split = append(split,
+				&ir.Leaf{Guards: append(append([]*ir.Term{}, lf.Guards...), t), Ret: []*ir.Term{ir.Const(constant.MakeBool(true), types.Typ[types.Bool])}, Pos: lf.Pos},
+				&ir.Leaf{Guards: append(append([]*ir.Term{}, lf.Guards...), ir.NotCond(t)), Ret: []*ir.Term{ir.Const(constant.MakeBool(false), types.Typ[types.Bool])}, Pos: lf.Pos})
+			continue
+		}
+		split = append(split, lf)
+	}
+	leaves = split
+	for _, lf := range leaves {
+		if len(lf.Ret) != 1 || lf.Ret[0].Op != ir.OConst || lf.Ret[0].C == nil || lf.Ret[0].C.Kind() != constant.Bool {
+			ok = false
+			c.Undecided("group-emptiness", who, e.P.Pos(lf.Pos), "result is not decided by the path: "+lf.String())
+			continue
+		}
+		res := constant.BoolVal(lf.Ret[0].C)
+		if hasGuard(lf, recvNil) {
+			if !res {
+				ok = false
+				c.Fail("group-emptiness", who, e.P.Pos(lf.Pos), "a nil object reports a non-empty group")
+			}
+			continue
+		}
+		if res {
+			for _, n := range l.Spec.Names() {
+				if !hasGuard(lf, ir.NotCond(look(n))) {
+					ok = false
+					c.Fail("group-emptiness", who, e.P.Pos(lf.Pos), "reports the group empty on a path that did not see names[\""+n+"\"] false: "+lf.String())
+				}
+			}
+		} else {
+			found := false
+			for _, n := range l.Spec.Names() {
+				if hasGuard(lf, look(n)) {
+					found = true
+				}
+			}
+			if !found {
+				ok = false
+				c.Fail("group-emptiness", who, e.P.Pos(lf.Pos), "reports the group present on a path where no name of the group was seen recorded: "+lf.String())
+			}
+		}
+		// only names may be consulted
+		for _, g := range lf.Guards {
+			ir.Walk(g, func(x *ir.Term) bool {
+				if x.Op == ir.OField && x.Obj != types.Object(l.Names) {
+					ok = false
+					c.Fail("group-emptiness", who, e.P.Pos(lf.Pos), "group presence depends on field "+x.Obj.Name()+" instead of the recorded names")
+					return false
+				}
+				return true
+			})
+		}
+	}
+	if ok {
+		c.Ok("group-emptiness", who, e.P.Pos(ie.Pos()), "true exactly when none of "+strings.Join(l.Spec.Names(), ", ")+" is recorded (or the receiver is nil)")
+	}
+}
+
+// promotedExported: an exported method reached through the embedded pointer
+// dereferences the receiver to load that pointer, so it panics on a nil
+// receiver; every exported method must be declared at each level.
+func (e *Env) promotedExported(l *facts.Level) {
+	c := e.C
+	if l.Lower == nil {
+		return
+	}
+	ms := types.NewMethodSet(l.Ptr())
+	n := 0
+	for i := 0; i < ms.Len(); i++ {
+		sel := ms.At(i)
+		fn, ok := sel.Obj().(*types.Func)
+		if !ok || !fn.Exported() {
+			continue
+		}
+		n++
+		if len(sel.Index()) > 1 {
+			c.Fail("nil-receiver", fmt.Sprintf("(*%s.%s).%s (promoted from the embedded level)", load.Rel(l.Pkg.PkgPath), l.Spec.Name, fn.Name()), e.P.Pos(l.Named.Obj().Pos()), "the method is not declared on *"+l.Spec.Name+" but promoted through the embedded pointer: calling it on a nil *"+l.Spec.Name+" dereferences nil to reach the embedded object and panics")
+		}
+	}
+	c.Ok("promoted-methods", l.String(), e.P.Pos(l.Named.Obj().Pos()), fmt.Sprintf("%d exported methods checked for promotion through the embedded pointer", n))
 }
